@@ -56,7 +56,8 @@ type batch struct {
 	RidBase  int64            `json:"rid_base"`
 	Invalid  string           `json:"invalid,omitempty"` // non-empty: deliberately malformed (must be rejected)
 	RowTags  []string         `json:"row_tags,omitempty"`
-	Rendered string           `json:"rendered,omitempty"` // argument shape actually used (set by the executor)
+	Rendered string           `json:"rendered,omitempty"`  // argument shape actually used (set by the executor)
+	Swap     bool             `json:"type_swap,omitempty"` // batch of the type-permutation family
 }
 
 func (b *batch) rid(i int) int64 { return b.RidBase + int64(i) }
@@ -105,6 +106,29 @@ type caseSpec struct {
 	Intruder  []*op  `json:"-"`
 	TimeBias  string `json:"time_bias,omitempty"`
 	TotalRows int    `json:"total_rows"`
+	// Swap: type-permutation family (nil = not in this case). Its writers are the
+	// goroutines Ops[Writers:], with writer ids Writers+1.. (Writers is the intruder's).
+	Swap *swapPlan `json:"type_swap,omitempty"`
+}
+
+// swapPlan describes the type-permutation family of a case: extra writers that send,
+// to ONE database/measurement, batches whose value columns keep their names while the
+// column types are permuted among them from one phase to the next (two-column swaps,
+// transpositions and 3-cycles in both directions of three columns), several batches
+// per phase, many phases. Every type change is a legitimate schema change: arc flushes
+// the old-schema buffer and starts a new one, so every acknowledged row must be stored.
+type swapPlan struct {
+	DB       string      `json:"db"`
+	M        string      `json:"m"`
+	Own      bool        `json:"own_measurement"` // false: the key also receives the regular workload
+	Cols     []string    `json:"cols"`            // permuted columns
+	Base     []colType   `json:"base_types"`      // pairwise distinct
+	Fixed    []colSpec   `json:"fixed_cols,omitempty"`
+	Writers  int         `json:"writers"`
+	Phases   [][]colType `json:"-"`
+	Switches int         `json:"type_switches"` // consecutive batches of one writer with permuted types
+	Distinct int         `json:"distinct_type_assignments"`
+	Batches  int         `json:"batches"`
 }
 
 func (s *caseSpec) decimalFor(m string) bool {
@@ -292,6 +316,12 @@ func genBatch(r *rand.Rand, s *caseSpec, sp *schemaPlan, w, seq, nMax int) *batc
 		vs := sp.variants[b.M]
 		v = vs[r.IntN(len(vs))]
 	}
+	fillCols(r, b, v)
+	return b
+}
+
+// fillCols draws null pattern and cells of batch b for the schema v.
+func fillCols(r *rand.Rand, b *batch, v schemaVariant) {
 	nullMode := r.IntN(4) // 0,1: dense batch; 2,3: nulls
 	for _, cs := range v {
 		t := cs.Type
@@ -328,7 +358,6 @@ func genBatch(r *rand.Rand, s *caseSpec, sp *schemaPlan, w, seq, nMax int) *batc
 		b.Cols = append(b.Cols, cs)
 		b.Cells[cs.Name] = col
 	}
-	return b
 }
 
 func (b *batch) eligibleMsgpack() bool {
@@ -542,6 +571,10 @@ func genCase(r *rand.Rand, index int, variant string, reduced bool) *caseSpec {
 			s.Tail = append(s.Tail, &op{API: api, Batches: []*batch{b}, ValShape: r.IntN(4)})
 		}
 	}
+	// drawn last, so that the rest of the case is the same with and without the family
+	if variant == "quiesced" && r.IntN(5) < 3 {
+		genSwap(r, s, reduced)
+	}
 	for _, ops := range s.Ops {
 		for _, o := range ops {
 			for _, b := range o.Batches {
@@ -603,6 +636,107 @@ func genOp(r *rand.Rand, s *caseSpec, home *schemaPlan, w int, seq *int, nMax in
 		b.Invalid = []string{"null_in_time", "string_time", "all_null_time"}[r.IntN(3)]
 	}
 	return o
+}
+
+// permutations of 0..n-1 (n = 2 or 3), identity first.
+func perms(n int) [][]int {
+	if n == 2 {
+		return [][]int{{0, 1}, {1, 0}}
+	}
+	return [][]int{{0, 1, 2}, {1, 0, 2}, {0, 2, 1}, {2, 1, 0}, {1, 2, 0}, {2, 0, 1}}
+}
+
+// genSwap adds the type-permutation family to a case (see swapPlan). Nothing in it is
+// tied to a particular pair of types, column count or entry point: the permuted types
+// are any 2-3 pairwise distinct ones of int64/float64/string/bool, optionally next to
+// columns whose type stays fixed, over every single-batch entry point of the workload.
+func genSwap(r *rand.Rand, s *caseSpec, reduced bool) {
+	sp := &swapPlan{DB: s.DBs[r.IntN(len(s.DBs))], M: "msw", Own: true, Writers: 1 + r.IntN(2)}
+	if s.Class != "big" && r.IntN(3) == 0 {
+		sp.M, sp.Own = s.Ms[r.IntN(len(s.Ms))], false
+	}
+	nc := 2 + r.IntN(2)
+	sp.Cols = []string{"sa", "sb", "sc"}[:nc]
+	ts := r.Perm(4)
+	for _, t := range ts[:nc] {
+		sp.Base = append(sp.Base, colType(t))
+	}
+	for i, nf := 0, r.IntN(3); i < nf; i++ {
+		sp.Fixed = append(sp.Fixed, colSpec{Name: []string{"sk", "sl"}[i], Type: colType(r.IntN(4))})
+	}
+	ps := perms(nc)
+	nPhases := 8 + r.IntN(5)
+	if reduced {
+		nPhases = 5 + r.IntN(3)
+	}
+	nMax := 20
+	if s.Class == "tiny_buffer" {
+		nMax = 6
+	}
+	seen := map[string]bool{}
+	for k := 0; k < sp.Writers; k++ {
+		w := s.Writers + 1 + k
+		var ops []*op
+		cur := r.IntN(len(ps))
+		seq := 0
+		for ph := 0; ph < nPhases; ph++ {
+			if ph > 0 {
+				// another assignment than the previous phase's: with two columns the plain
+				// exchange back and forth, with three a transposition or a 3-cycle
+				cur = (cur + 1 + r.IntN(len(ps)-1)) % len(ps)
+			}
+			v := schemaVariant{}
+			asg := make([]colType, nc)
+			for ci, name := range sp.Cols {
+				asg[ci] = sp.Base[ps[cur][ci]]
+				v = append(v, colSpec{Name: name, Type: asg[ci]})
+			}
+			v = append(v, sp.Fixed...)
+			sp.Phases = append(sp.Phases, asg)
+			seen[fmt.Sprint(asg)] = true
+			for nb := 1 + r.IntN(3); nb > 0; nb-- {
+				b := &batch{Writer: w, Seq: seq, DB: sp.DB, M: sp.M, Swap: true}
+				b.RidBase = (int64(w+1)*10_000 + int64(seq)) * 100_000
+				seq++
+				b.N = 1 + r.IntN(nMax)
+				b.TimeMode, b.Times = genTimes(r, s, b.N)
+				b.Cells = map[string][]any{}
+				fillCols(r, b, v)
+				o := &op{Batches: []*batch{b}, ValShape: r.IntN(4), Typed: r.IntN(2) == 0}
+				switch x := r.IntN(18); {
+				case x < 4:
+					o.API = "columnar"
+				case x < 8:
+					o.API = "typed"
+				case x < 12:
+					o.API = "msgpack"
+				case x < 14:
+					o.API = "direct"
+				case x < 16:
+					o.API = "write1"
+				default:
+					o.API = "rows"
+				}
+				if o.API == "msgpack" && !b.eligibleMsgpack() {
+					o.API = "columnar"
+				}
+				if o.API == "rows" {
+					prepRows(r, b)
+				}
+				if s.Class == "age" || r.IntN(5) == 0 {
+					o.SleepUS = []int{50, 500, 3000, 12000}[r.IntN(4)]
+				}
+				ops = append(ops, o)
+				sp.Batches++
+			}
+			if ph > 0 {
+				sp.Switches++
+			}
+		}
+		s.Ops = append(s.Ops, ops)
+	}
+	sp.Distinct = len(seen)
+	s.Swap = sp
 }
 
 // prepRows adapts a batch to the row format (models.Record): a zero Timestamp means
